@@ -21,6 +21,12 @@ build() { # build <out> <pkg> [extra go build args]
     return 1
   fi
 }
+# bridge: add the per-declaration translation file to package goose by overlay and build cmd/gooseb
+bridge() {
+  mkdir -p "$W/br"
+  printf '{"Replace": {"%s/zz_verif_bridge.go": "%s/mc/bridge/bridge.go.txt"}}' "$REPO" "$V" > "$W/br/ov.json"
+  build "$W/gooseb" ./cmd/gooseb -overlay "$W/br/ov.json" || exit 3
+}
 instr() { go run ./cmd/instr -dir "$W/ov" -o "$W/ov.json" "$@" || { echo "harness error: instrumentation failed" >&2; exit 3; }; }
 
 case "$ID" in
@@ -70,7 +76,8 @@ C17)
 C01|C02)
   build "$W/bin" ./cmd/c01 || exit 3
   (cd $REPO && go build -o "$W/goose" ./cmd/goose) || { echo "harness error: goose does not build" >&2; exit 3; }
-  EXTRA_ARGS="-prop $ID -bin $W/goose"
+  bridge
+  EXTRA_ARGS="-prop $ID -bin $W/goose -bridge $W/gooseb"
   ;;
 *) echo "unknown property $ID" >&2; exit 3;;
 esac
